@@ -736,3 +736,22 @@ Proof.
   intros e; split; intros [H|[H|[]]]; subst; auto.
 Qed.
 Print Assumptions C20_x_snapshot_nonvacuous.
+
+(* ---------------------------------------------------------------- admissible `bulk` outcomes (the driver uses THIS predicate) *)
+(* [bulk_ok] pins the outcome completely: exactly min(n, cap) series (n when unbounded), exactly the rest dropped *)
+Theorem C20_bulk_ok_exact : forall cap n series drops tombs sum count unknown stale early,
+  0 <= n -> bulk_ok cap n series drops tombs sum count unknown stale early = true ->
+  series = (if (0 <? cap) && (cap <? n) then cap else n) /\ drops = n - series /\
+  count = series /\ sum = series /\ tombs = drops /\ unknown = 0 /\ stale = 0 /\ early = 0.
+Proof.
+  intros cap n series drops tombs sum count unknown stale early Hn H. unfold bulk_ok in H.
+  repeat (apply andb_true_iff in H as [H ?]).
+  destruct (Z.ltb_spec 0 cap); destruct (Z.ltb_spec cap n); simpl; lia.
+Qed.
+Print Assumptions C20_bulk_ok_exact.
+Example C20_bulk_ok_nonvacuous :
+  bulk_ok 10000 10400 10000 400 400 10000 10000 0 0 0 = true /\ bulk_ok (-1) 10300 10300 0 0 10300 10300 0 0 0 = true /\
+  bulk_ok (-1) 10300 5 10295 10295 5 5 0 0 0 = false /\ bulk_ok 10000 10400 9990 410 410 9990 9990 0 0 0 = false /\
+  bulk_ok 10000 10400 10000 400 400 10000 10000 0 0 3 = false.
+Proof. vm_compute. repeat split; reflexivity. Qed.
+Print Assumptions C20_bulk_ok_nonvacuous.
